@@ -8,11 +8,23 @@
   arise: operand type mismatches in C01 (`*_type_error`), undeclared names in C04, non-boolean
   conditions in C02, list positions in C16, calls in C05, printing nil / functions in C18.  Here:
   index faults, built-in faults, the `_এরর` built-in, malformed control statements, first-error-stops.
-  "Never a panic" for whole runs needs the heap invariant `InBounds` carried through the evaluator
-  (every `.list i` / `.record i` value points into its arena); that induction is not closed yet and
-  the clause is decided meanwhile by the C13 fault matrix (the harness reports every Rust panic).
+
+  "Never a panic" is proved for whole runs (`run_never_panics`, `parsed_program_never_panics`): the
+  state invariant `StOK` (every `.list i` / `.record i` value stored anywhere points into its arena, the
+  free stacks hold arena indexes, the scope stack is never empty, loop records point into the program;
+  `Lemmas/Inv.lean`) is preserved by every one of the ten mutually recursive functions of the evaluator,
+  by all 17 built-ins, by assignment through index paths, by printing and by the collector
+  (`Lemmas/EvalInv.lean`, `Lemmas/GcInv.lean`), and under it none of the model's `.panic` outcomes
+  (one per `unwrap()` / slice index / `[]` of `interpreter.rs`, `built_ins.rs`, `mark_sweep.rs`) is
+  reachable — for every program the parser can return (`parse_wf`), every world, every collection
+  schedule and every fuel.  What this does not cover: Rust panics that have no `.panic` site in the
+  model (arithmetic overflow in `usize` computations, stack exhaustion — see C12's known finding);
+  those are only observed by the harness, which reports every caught panic.
 -/
 import Pakhi.Lemmas.Control
+import Pakhi.Lemmas.EvalInv
+import Pakhi.Lemmas.ParseWF
+import Pakhi.Lemmas.ParseNP
 
 namespace Pakhi
 namespace C13
@@ -125,6 +137,40 @@ theorem addSub_panics_only_out_of_bounds (op : TK) (m : Meta) (l r : Val) (h : H
              have h1 := hl i rfl; have h2 := hr j rfl
              cases ha : h.lists[i]? <;> cases hb : h.lists[j]? <;> simp_all
              all_goals (first | exact absurd (List.getElem?_eq_none_iff.mp ha) (by omega) | exact absurd (List.getElem?_eq_none_iff.mp hb) (by omega)))
+
+/-- **no panic in any run of a well-formed statement list**, for every collection schedule `g`, world `w`,
+    fuel `f` (and step counter `k`): the run is a value, a Pakhi error or out of fuel -/
+theorem run_never_panics (prog : List Stmt) (hp : progWF prog = true) (g : GcMode) (f k : Nat) (w : World) (p : String) :
+    runLoop prog g f k prog (St.init w) ≠ .panic p :=
+  Pakhi.run_never_panics prog hp g f k w p
+
+/-- the hypothesis of `run_never_panics` holds for everything the parser returns, so:
+    **tokens → parse → run never panics** (the parser part is C12's `parse_never_panics`) -/
+theorem parsed_program_never_panics (ctx : PCtx) (pf : Nat) (toks : List Token) (prog : List Stmt)
+    (h : parse ctx pf toks = .ok prog) (g : GcMode) (f k : Nat) (w : World) (p : String) :
+    runLoop prog g f k prog (St.init w) ≠ .panic p :=
+  Pakhi.run_never_panics prog (parse_wf ctx pf toks prog h) g f k w p
+
+/-- the invariant itself, for every state a run can end in: references in bounds, scopes non-empty -/
+theorem run_keeps_invariant (prog : List Stmt) (hp : progWF prog = true) (g : GcMode) (f k : Nat) (w : World) (s' : St)
+    (h : runLoop prog g f k prog (St.init w) = .ok s') : StOK (fun _ _ => True) prog s' := by
+  have := runLoop_good (fun _ _ => True) prog hp (fun _ _ _ _ _ _ _ _ _ => trivial) g f k prog (St.init w)
+    (IsSuffixOf.refl _) (stOK_init _ prog w)
+  rw [h] at this; exact this
+
+/-- every single statement step and every evaluation from a state satisfying the invariant: no panic
+    (this is what `run_never_panics` iterates; stated for arbitrary reachable-like states, not only runs) -/
+theorem step_never_panics (prog : List Stmt) (hp : progWF prog = true) (f : Nat) (cur : List Stmt) (s : St)
+    (hsuf : IsSuffixOf cur prog) (hs : StOK (fun _ _ => True) prog s) (p : String) : exec prog f cur s ≠ .panic p := by
+  have := (evalInv (fun _ _ => True) prog hp (fun _ _ _ _ _ _ _ _ _ => trivial) f).exec cur s hsuf hs
+  intro h; rw [h] at this; exact this
+
+/-- non-vacuity: a program with a record literal, a re-assignment and a list index is well formed, and the
+    initial state satisfies the invariant -/
+example : progWF [Stmt.assign { kind := .first, var := default, indexes := [], init := some (.record (.cons (.str ['k'] default) .nil) (.cons (.num 0 default) .nil) default) } default,
+                  Stmt.assign { kind := .re, var := default, indexes := [.list (.cons (.str ['k'] default) .nil) default], init := some (.num 0 default) } default,
+                  Stmt.eos default] = true := by decide
+example (prog : List Stmt) (w : World) : StOK (fun _ _ => True) prog (St.init w) := stOK_init _ prog w
 
 end C13
 end Pakhi
